@@ -143,6 +143,8 @@ class Builtins:
             "sum": self.b_sum, "any": self.b_any, "all": self.b_all,
             "enumerate": self.b_enumerate, "zip": self.b_zip, "range": self.b_range,
             "round": self.b_round, "hash": self.b_hash, "sorted": self.b_sorted, "id": self.b_id,
+            "max": lambda a, k: self.b_minmax(a, k, True), "min": lambda a, k: self.b_minmax(a, k, False),
+            "abs": self.b_abs, "divmod": self.b_divmod, "pow": lambda a, k: self.binop(ast.Pow(), a[0], a[1]),
             "repr": self.b_str,
         }
         if name in table:
@@ -177,7 +179,7 @@ class Builtins:
 
     def call_builtin_class(self, cls, args, kwargs):
         fns = {"float": self.b_float, "str": self.b_str, "list": self.b_list, "tuple": self.b_tuple,
-               "dict": self.b_dict, "set": self.b_set}
+               "dict": self.b_dict, "set": self.b_set, "int": self.b_int, "bool": lambda a, k: self.I.truth(a[0], "bool()") if a else False}
         if cls.name in fns:
             return fns[cls.name](args, kwargs)
         raise Unsupported(f"call of builtin class {cls.name}")
@@ -357,6 +359,16 @@ class Builtins:
                 return a + b
             if isinstance(a, (str, SStr)) and isinstance(b, (str, SStr)):
                 return str_concat(a, b)
+        if t is ast.Mult and ((isinstance(a, (list, tuple)) and isinstance(b, int)) or (isinstance(b, (list, tuple)) and isinstance(a, int))):
+            seq, n = (a, b) if isinstance(a, (list, tuple)) else (b, a)
+            if isinstance(n, bool):
+                raise Unsupported("sequence * bool")
+            r = type(seq)(list(seq) * n) if isinstance(seq, tuple) else list(seq) * n
+            if isinstance(r, list):
+                I.heap_log.append(("alloc-list", id(r), None, I.where()))
+            return r
+        if isinstance(a, (list, tuple, SDict, SSet)) or isinstance(b, (list, tuple, SDict, SSet)):
+            raise Unsupported(f"operator {t.__name__} on containers is not modelled")
         if not (is_num(a) and is_num(b)):
             raise Raise(self.make_exc("TypeError", f"unsupported operand types for {t.__name__}: {a!r}, {b!r}"), I.where())
         ta, tb = num_term(a), num_term(b)
@@ -454,6 +466,10 @@ class Builtins:
         I = self.I
         a = I.resolve_opt(a)
         b = I.resolve_opt(b)
+        if isinstance(a, Arb) or isinstance(b, Arb):
+            if a is None or b is None:
+                return False           # the non-None alternative of an arbitrary value
+            return z3.Bool(self.path.fresh_name("arb-equals"))
         if is_num(a) and is_num(b):
             if not isinstance(a, SNum) and not isinstance(b, SNum):
                 return a == b
@@ -615,6 +631,13 @@ class Builtins:
             else:
                 o.entries.append((k, v))
             return o
+        if isinstance(o, list) and isinstance(k, int) and not isinstance(k, bool):
+            if not new:
+                I.heap_log.append(("mutate-list", id(o), "[]=", I.where()))
+            if -len(o) <= k < len(o):
+                o[k] = v
+                return o
+            raise Raise(self.make_exc("IndexError", "list assignment index out of range"), I.where())
         raise Unsupported(f"subscript store on {o!r}")
 
     def slice(self, o, lo, hi):
@@ -873,6 +896,49 @@ class Builtins:
 
     def b_str(self, a, k):
         return self.to_str(a[0])
+
+    def b_minmax(self, a, k, is_max):
+        if k:
+            raise Unsupported("max/min with key= or default=")
+        items = list(self.iterate(a[0])) if len(a) == 1 else list(a)
+        if not items:
+            raise Raise(self.make_exc("ValueError", "max()/min() arg is an empty sequence"), self.I.where())
+        best = items[0]
+        for it in items[1:]:
+            c = self.compare(ast.Gt() if is_max else ast.Lt(), it, best)
+            if self.I.truth(c, "max/min"):
+                best = it
+        return best
+
+    def b_int(self, a, k):
+        """int(x): truncation toward zero."""
+        if not a:
+            return 0
+        v = a[0]
+        if isinstance(v, bool):
+            return int(v)
+        if isinstance(v, (int, float)):
+            return int(v)
+        if isinstance(v, SNum):
+            if z3.is_int(v.term):
+                return mk_num(v.term, True)
+            t = v.term
+            return mk_num(z3.If(t >= 0, z3.ToInt(t), -z3.ToInt(-t)), True)
+        raise Raise(self.make_exc("TypeError", f"int() argument {v!r}"), self.I.where())
+
+    def b_divmod(self, a, k):
+        x, y = a
+        q = self.binop(ast.FloorDiv(), x, y)
+        r = self.binop(ast.Mod(), x, y)
+        return (q, r)
+
+    def b_abs(self, a, k):
+        v = a[0]
+        if not is_num(v):
+            raise Raise(self.make_exc("TypeError", "bad operand type for abs()"), self.I.where())
+        if not isinstance(v, SNum):
+            return abs(v)
+        return mk_num(z3.If(v.term >= 0, v.term, -v.term), v.pyint)
 
     def b_id(self, a, k):
         v = a[0]
